@@ -88,7 +88,7 @@ Section Extend.
         intros s3 (Hab3 & Hd & Hoc). exists O. split; [lia|]. simpl. rewrite app_nil_r. split; [exact Hab3|].
         intros y Hy. destruct Hoc as [_ Hl3]. rewrite Hl3 by (intros [<-|[]]; unfold e in Hy; lia).
         rewrite Hl2. unfold upd. destruct (Z.eqb_spec y (next_elem s)); [lia|reflexivity]. }
-      intros u s3 [Hab3 [Hn3 Hl3]].
+      intros u s3 (Hab3 & [Hn3 Hl3] & _).
       specialize (IH s3 v (l ++ [e]) sc' Hab3 ltac:(simpl in Hfuel; lia)). rewrite Ey in IH.
       assert (Hns3 : next_elem s3 = next_elem s + 1) by (rewrite Hn3; exact Hn2).
       assert (Hold3 : forall y, y < next_elem s -> ledger s3 y = ledger s y).
